@@ -16,7 +16,7 @@ RULE = ("schedules (A, B, k): API call A preempted just before its k-th bytecode
         "Oracle: bit-identical to the sequential results (either serial order), no exception. Non-trivial = preemption fired "
         "strictly inside A (0<k<N_A) and both A and B are geometry or list-building calls; distinct by (A,B,k).")
 ASSUMPTIONS = ["a5 keeps no thread-local state, so 'B runs to completion inside A' is a faithful 2-thread schedule",
-               "C-level builtins are atomic (true under the GIL); only context bound 2 is explored"]
+               "C-level builtins are atomic (true under the GIL); context bound 2 systematically, bound 3 sampled"]
 REQUIRED_CLASSES = {"fired_inside": (None, 0.5), "cold": ("hyp", 0.15), "both_geometry": ("hyp", 0.3)}
 
 _zyg = {}
@@ -61,7 +61,56 @@ def trial_in_process(payload):
     return (n, ra, rb, where, fired)
 
 
+def judge_nested(case, col):
+    """Three parties: A is preempted at k by B, and B itself is preempted at k2 by C (context bound 3)."""
+    A, B, C = case["A"], case["B"], case["C"]
+    ra = [sched._safe(_mk(A)) for _ in range(2)]
+    rb = [sched._safe(_mk(B)) for _ in range(2)]
+    rc = [sched._safe(_mk(C)) for _ in range(2)]
+    nA, _, _ = sched.run_preempted(_mk(A), None, -1)
+    nB, _, _ = sched.run_preempted(_mk(B), None, -1)
+    if nA <= 0 or nB <= 0:
+        col.case(case, nontrivial=False, classes=("no_events",))
+        return
+    k = min(nA - 1, int(case["u"] * nA))
+    k2 = min(nB - 1, int(case["u2"] * nB))
+    inner = {}
+
+    def b_preempted_by_c():
+        # tracing is suspended inside a trace callback, so B (which is traced itself) runs on a second real thread
+        # that is joined before A resumes: the same schedule, with B's own tracer active
+        def body():
+            n, tb, (tc, where, fired) = sched.run_preempted(_mk(B), _mk(C), k2)
+            inner.update(tb=tb, tc=tc, where=where, fired=fired)
+        t = threading.Thread(target=body)
+        t.start()
+        t.join()
+        tb = inner.get("tb", ("exc", "inner thread died"))
+        if tb[0] == "exc":
+            raise RuntimeError(tb[1])
+        return tb[1]
+    n, ta, (tb_outer, where, fired) = sched.run_preempted(_mk(A), b_preempted_by_c, k)
+    rec = {"A": A, "B": B, "C": C, "k": k, "k2": k2, "nested": True}
+    if not fired or not inner.get("fired"):
+        col.count("not_fired")
+        col.case(rec, nontrivial=False, classes=("nested", "not_fired"))
+        return
+    if ta not in ra:
+        raise Violation("A_differs_under_nested_preemption", rec, observed=_short(ta), expected=_short(ra[0]), note=f"A preempted at {where}, B at {inner['where']}")
+    if inner["tb"] not in rb:
+        raise Violation("B_differs_under_nested_preemption", rec, observed=_short(inner["tb"]), expected=_short(rb[0]), note=f"B preempted at {inner['where']} inside A at {where}")
+    if inner["tc"] not in rc:
+        raise Violation("C_differs_inside_B_inside_A", rec, observed=_short(inner["tc"]), expected=_short(rc[0]), note=f"ran at {inner['where']}")
+    col.case(rec, nontrivial=0 < k and 0 < k2, classes=("nested", "fired_inside", "hyp", "warm"))
+
+
 def judge(case, col):
+    if case.get("nested") or "C" in case:
+        if "u" not in case:
+            case = dict(case, u=None)
+            # replay with explicit k/k2: reuse the fractions machinery
+            return _replay_nested(case, col)
+        return judge_nested(case, col)
     A, B = case["A"], case["B"]
     cold = bool(case.get("cold"))
     # opcode-granularity tracing only becomes active for a code object after it has been traced once
@@ -121,8 +170,25 @@ def _short(r):
     return s if len(s) < 300 else s[:300] + "..."
 
 
+def _replay_nested(case, col):
+    A, B = case["A"], case["B"]
+    nA, _, _ = sched.run_preempted(_mk(A), None, -1)
+    nA, _, _ = sched.run_preempted(_mk(A), None, -1)
+    nB, _, _ = sched.run_preempted(_mk(B), None, -1)
+    nB, _, _ = sched.run_preempted(_mk(B), None, -1)
+    c2 = dict(case, u=(case["k"] + 0.5) / max(nA, 1), u2=(case["k2"] + 0.5) / max(nB, 1))
+    return judge_nested(c2, col)
+
+
 def cases():
     call = st.one_of(apigen.geometry_calls(), apigen.geometry_calls(), apigen.geometry_calls(), apigen.any_call())
+    nested = st.builds(lambda A, B, C, u, u2: {"A": A, "B": B, "C": C, "u": u, "u2": u2, "nested": True},
+                       apigen.geometry_calls(), apigen.geometry_calls(), apigen.geometry_calls(),
+                       st.floats(0, 0.999999, allow_nan=False), st.floats(0, 0.999999, allow_nan=False))
+    return st.one_of(_pairs(call), _pairs(call), _pairs(call), nested)
+
+
+def _pairs(call):
     return st.builds(lambda A, B, u, cold, op: {"A": A, "B": B, "u": u, "cold": cold == 0, "opcodes": op == 0},
                      call, call, st.floats(0, 0.999999, allow_nan=False), st.integers(0, 2), st.integers(0, 5))
 
